@@ -1,4 +1,5 @@
 import FV.Proofs.Wrap
+import FV.Proofs.Names
 /-
   C07 — SAT layer: every posted constraint is encoded exactly.
 
@@ -340,6 +341,69 @@ theorem solve_sound_evalExpr {S0 : Store Var} (hw : WFStore S0) {ps : List Post}
   obtain ⟨τ, hτ, hval⟩ := (solve_sound hw r hps hcnf hsolver hs).2 rfl
   exact ⟨τ, hτ, fun e he => evalExpr_spec m' τ e (fun t ht => hval t.L.v (he t ht) t.L.s)⟩
 
+/-- **The property's last sentence, on the values the public methods return.**  After any history of a manager
+    (`Run` from `SATManager()`), with every literal of every accepted constraint registered through `newvar` (`hreg`; as
+    every literal `rect.py` uses is) and a correct solver: if `solve()` returns `True`, then EVERY accepted constraint
+    holds as read off the exposed model — each clause has a literal with `value() == 1`, each implication with all
+    premises at `value() == 1` has its conclusion at 1, each at-most-one group has at most one literal at 1, and for each
+    inequality `evalexpr(lhs)` returns an integer standing in the posted relation to the bound — and `value()` is total and
+    consistent on the registered variables (`value(¬x) = 1 − value(x)`, both in `{0, 1}`). -/
+theorem solve_exposed_model_satisfies {S0 : Store Var} (hw : WFStore S0) {ps : List Post} {m : Mgr} {S : Store Var}
+    (r : Run {} S0 ps m S) (hps : ∀ p ∈ ps, p.WF) (hreg : ∀ p ∈ ps, ∀ l ∈ p.lits, l.v ∈ m.vars)
+    {cnf : List (List Int)} (hcnf : m.cnf = .ok cnf) {ans : Option (List Int)} (hsolver : SolverOK cnf ans)
+    {m' : Mgr} (hs : m.solve ans = .ok (true, m')) :
+    (∀ p ∈ ps, p.holdsExposed m') ∧
+    (∀ v ∈ m.vars, ∃ x : Int, (x = 0 ∨ x = 1) ∧ m'.value ⟨v, true⟩ = some x ∧ m'.value ⟨v, false⟩ = some (1 - x)) := by
+  obtain ⟨τ, hτ, hval⟩ := (solve_sound hw r hps hcnf hsolver hs).2 rfl
+  refine ⟨fun p hp => holdsExposed_of_holds (fun l hl => ?_) (hτ p hp), fun v hv => ?_⟩
+  · have := hval l.v (hreg p hp l hl) l.s
+    cases l; exact this
+  · refine ⟨litVal τ ⟨v, true⟩, litVal_cases τ _, hval v hv true, ?_⟩
+    rw [hval v hv false]
+    have := litVal_flip τ v true
+    simpa using this
+
+/-- the converse reading: whatever assignment the exposed values come from, a constraint read off `value()` /
+    `evalexpr()` as satisfied IS satisfied by it (so a harness that evaluates the posted constraints on the exposed values —
+    as `harness/props/c07.py` does after every `solve()` — tests exactly `Post.holds`) -/
+theorem exposed_reading_exact {m : Mgr} {τ : Var → Bool} {p : Post}
+    (hval : ∀ l ∈ p.lits, m.value l = some (litVal τ l)) : p.holdsExposed m ↔ p.holds τ :=
+  ⟨holds_of_holdsExposed hval, holdsExposed_of_holds hval⟩
+
+/-! ### sessions on a store that is never reset -/
+
+/-- **Regardless of what was encoded earlier in the process.**  Managers created one after the other (`Session`: each
+    starts empty on the store all its predecessors — and the managers interleaved with them — left behind; the store
+    is never reset): the store stays well formed and append-only through the whole session, and EVERY manager of the
+    session encodes exactly its own accepted constraints: an assignment of the user variables extends to a model of its CNF
+    iff it satisfies all of them. -/
+theorem session_exact {S0 S' : Store Var} (hw : WFStore S0) {hs : List (List Post × Mgr)} (s : Session S0 hs S') :
+    (WFStore S' ∧ S0.le S') ∧
+    ∀ pm ∈ hs, ∀ σ : Var → Bool,
+      (∃ τ, (∀ v, isUser v → τ v = σ v) ∧ cnfTrue τ pm.2.clauses) ↔ ∀ p ∈ pm.1, p.holds σ := by
+  refine ⟨session_store s hw, fun pm hpm σ => ?_⟩
+  have hwf : ∀ p ∈ pm.1, p.WF := by
+    clear σ
+    induction s with
+    | nil => simp at hpm
+    | cons r hps _ ih =>
+      rcases List.mem_cons.1 hpm with rfl | h
+      · exact hps
+      · exact ih (run_store r hw hps).1 h
+  obtain ⟨S, inv⟩ := session_minv s hw pm hpm
+  constructor
+  · rintro ⟨τ, hag, hτ⟩ p hp
+    exact (holds_congr (hwf p hp) hag).1 (inv.sound τ hτ p hp)
+  · intro hσ
+    obtain ⟨τ, h1, _, h3⟩ := inv.complete σ hσ
+    exact ⟨τ, h1, h3⟩
+
+/-- in particular from the initial store of a fresh process -/
+theorem session_exact_fresh {S' : Store Var} {hs : List (List Post × Mgr)} (s : Session Store.init hs S') :
+    ∀ pm ∈ hs, ∀ σ : Var → Bool,
+      (∃ τ, (∀ v, isUser v → τ v = σ v) ∧ cnfTrue τ pm.2.clauses) ↔ ∀ p ∈ pm.1, p.holds σ :=
+  (session_exact store_init_wf s).2
+
 /-- a literal that was never registered through `newvar` makes `solve()` raise (`KeyError`) rather than be ignored -/
 theorem solve_unregistered {m : Mgr} {c : Clause} {x : Lit} (hc : c ∈ m.clauses) (hx : x ∈ c) (hv : x.v ∉ m.vars)
     (ans : Option (List Int)) : ∃ e, m.solve ans = .error e := by
@@ -357,6 +421,43 @@ theorem solve_unregistered {m : Mgr} {c : Clause} {x : Lit} (hc : c ∈ m.clause
 theorem built_ineq_wf {a b : Expr Var} (o : CmpOp) (dec : Bool) (ha : a.NF) (hb : b.NF)
     (hau : ∀ y ∈ a.t, isUser y.L.v) (hbu : ∀ y ∈ b.t, isUser y.L.v) : (Post.pb (Ineq.make a b o) dec).WF :=
   make_wf o dec ha hb hau hbu
+
+/-! ### variable names (`newvar(name, pre)`: `vname = pre + str(name)`) -/
+
+/-- every variable made by `newvar` with the DEFAULT prefix `def_` is a user variable of the model — whatever the name
+    is (a `str`, or `str()` of an `int` / `float`), it can never collide with a `robdd_<n>` / `aux_<n>` variable the manager
+    creates itself; the call registers it (once) and returns the positive literal -/
+theorem newvar_default_prefix_user (m : Mgr) (name : List Char) :
+    isUser (m.newvarPy name).1.v ∧ (m.newvarPy name).1.s = true ∧
+    (m.newvarPy name).2 = m.newvar (m.newvarPy name).1.v ∧ (m.newvarPy name).1.v ∈ (m.newvarPy name).2.vars := by
+  have h : (m.newvarPy name).1.v = .user (String.ofList (defPre ++ name)) := classify_def name
+  refine ⟨by rw [h]; trivial, rfl, rfl, ?_⟩
+  show classify (defPre ++ name) ∈ (m.newvar (classify (defPre ++ name))).vars
+  unfold Mgr.newvar
+  split <;> simp_all
+
+/-- so is every variable made with the empty prefix from a name that does not start with `r` or `a` — the names of
+    `tools/rect/rect.py` all start with `b` (C08 `names_ok`) -/
+theorem newvar_plain_name_user (m : Mgr) (c : Char) (cs : List Char) (hr : c ≠ 'r') (ha : c ≠ 'a') :
+    isUser (m.newvarPy (c :: cs) []).1.v := by
+  show isUser (classify ([] ++ c :: cs))
+  rw [List.nil_append, classify_other c cs hr ha]; trivial
+
+/-- what `_codifyrobdd` / `newaux` register: `newvar(robdd_id, "robdd_")` is the model's `Var.node robdd_id` and
+    `newvar(str(auxcount), "aux_")` is `Var.aux auxcount` -/
+theorem newvar_reserved_names (m : Mgr) (n : Nat) :
+    (m.newvarInt n robddPre).1 = ⟨.node n, true⟩ ∧ (m.newvarInt n auxPre).1 = ⟨.aux n, true⟩ ∧
+    (m.newvarInt n auxPre).2 = m.newvar (.aux n) := by
+  simp [Mgr.newvarInt, Mgr.newvarPy, classify_node, classify_aux]
+
+/-- the model's variables and Python's name strings correspond one to one: reading back the name of a variable gives
+    the variable, hence distinct variables have distinct names; and every string is the name of exactly the variable
+    `classify` reads it as -/
+theorem names_faithful :
+    (∀ v : Var, v.Canon → classify v.chars = v) ∧
+    (∀ v w : Var, v.Canon → w.Canon → v.chars = w.chars → v = w) ∧
+    (∀ cs : List Char, (classify cs).Canon) :=
+  ⟨classify_chars, fun _ _ hv hw h => chars_injective hv hw h, classify_canon⟩
 
 /-! ### non-vacuity -/
 section Examples
@@ -384,6 +485,11 @@ example : (match ({} : Mgr).heule [x, y, z, x.neg, y.neg] 3 with
 example : (({} : Mgr).pseudoBool Store.init
     (Ineq.make (((⟨0, []⟩ : Expr Var).add (.lit x)).add (.lit y)) ⟨1, []⟩ .eq) false) matches .error .exception := by
   decide
+/-- `newvar("x")` is the user variable `def_x`; `newvar(17, "robdd_")` is node 17; a name that merely looks reserved
+    (`robdd_017`, `aux_`) is a user variable, as it is a different string for Python -/
+example : (({} : Mgr).newvarPy ['x']).1 = x := by decide
+example : varOfName "robdd_17" = .node 17 ∧ varOfName "aux_3" = .aux 3 ∧ varOfName "robdd_017" = .user "robdd_017" ∧
+    varOfName "aux_" = .user "aux_" ∧ nameOfVar (.node 120) = "robdd_120" := by decide
 end Examples
 
 /-! ### a concrete history satisfying every hypothesis used above
@@ -559,6 +665,47 @@ example : ∃ τ m', (∀ p ∈ fin.2.2 ++ fin2.2.2, p.holds τ) ∧ fin2.1.solv
   refine ⟨τ, m', hτ, hs, hval _ ?_ true⟩
   have : (Var.user "def_x" ∈ fin2.1.vars) = true := by decide +kernel
   simpa using this
+
+/-- `solve_exposed_model_satisfies` applies to the scenario: every literal of the accepted constraints is registered,
+    and each accepted constraint holds as read off `value()` / `evalexpr()` of the manager `solve()` returns -/
+example : ∃ m', fin.1.solve (some ans) = .ok (true, m') ∧ ∀ p ∈ fin.2.2, p.holdsExposed m' := by
+  obtain ⟨cnf, hcnf, hsolver, m', hs⟩ := cnf_ok
+  have hreg : ∀ p ∈ fin.2.2, ∀ l ∈ p.lits, l.v ∈ fin.1.vars := by decide +kernel
+  exact ⟨m', hs, (solve_exposed_model_satisfies store_init_wf run posts_wf hreg hcnf hsolver hs).1⟩
+
+/-- the reading is not vacuous: on the manager the scenario's `solve()` returns, `evalexpr(2x + 3y + 2¬z)` is `5 ≥ 4`, and a
+    constraint that the model violates (`x`) reads as violated -/
+example : (Post.pb q1 false).holdsExposed solved1 ∧ ¬ (Post.clause [x]).holdsExposed solved1 := by
+  constructor
+  · exact ⟨5, by decide +kernel, by show (5 : Int) ≥ 4; decide⟩
+  · rintro ⟨l, hl, hv⟩
+    simp at hl; subst hl
+    have : solved1.value x = some 0 := by decide +kernel
+    rw [this] at hv; simp at hv
+
+/-- a session: the scenario's manager, then a second manager created on the store the first one left behind (never
+    reset); `session_exact` applies to both -/
+def second : Mgr × Store Var × List Post :=
+  execPosts (registerAll {} vars) fin.2.1 [.pb q1 true, .amoQ [x, y]]
+
+theorem session2 : Session Store.init [(fin.2.2, fin.1), (second.2.2, second.1)] second.2.1 :=
+  Session.cons run posts_wf (Session.cons (run_registerAll vars (run_execPosts _ _ _)) (by
+    intro p hp
+    have hp' := execPosts_subset _ _ _ p hp
+    simp only [List.mem_cons, List.mem_nil_iff, or_false] at hp'
+    rcases hp' with rfl | rfl
+    · exact q1_wf true
+    · intro l hl
+      simp only [List.mem_cons, List.mem_nil_iff, or_false] at hl
+      rcases hl with rfl | rfl <;> trivial) (Session.nil _))
+
+example (σ : Var → Bool) :
+    (∃ τ, (∀ v, isUser v → τ v = σ v) ∧ cnfTrue τ second.1.clauses) ↔ ∀ p ∈ second.2.2, p.holds σ :=
+  session_exact_fresh session2 (second.2.2, second.1) (by simp) σ
+
+/-- the second manager found the store of the first (6 nodes) and appended to it (the other construction builds other nodes) -/
+example : (fin.2.1.memory.length, decide (fin.2.1.memory.length ≤ second.2.1.memory.length), second.2.2.length) = (6, true, 2) := by
+  decide +kernel
 
 /-- the second exposed model has x = 1 (the first one had x = 0) -/
 example : (match fin2.1.solve (some ans2) with | .ok (b, m') => (b, m'.value x, fin2.1.value x) | .error _ => (false, none, none))
